@@ -31,13 +31,14 @@ def cpre : List CE :=
    .fsyncBegin "t3" .fLn,        -- … so `ln` is fsynced again
    .fsyncEnd "t3" .fLn]
 
-/-- after the Begin of the meta write (effect 2): its fsync, the table page, its fsync, the WAL truncation -/
+/-- (ids are the positions of the Begin lines in the rendering `Nomt.Store.OToy.goodLines`)
+after the Begin of the meta write (effect 10): its fsync, the table page, its fsync, the WAL truncation -/
 def crest : List CE :=
-  [.effEnd 2, .fsyncBegin "t1" .fMeta, .fsyncEnd "t1" .fMeta,
-   .effBegin 3 (.page .fHt 5 9), .effEnd 3, .fsyncBegin "t1" .fHt, .fsyncEnd "t1" .fHt,
-   .effBegin 4 (.walSet none), .effEnd 4]
+  [.effEnd 10, .fsyncBegin "t1" .fMeta, .fsyncEnd "t1" .fMeta,
+   .effBegin 14 (.page .fHt 5 9), .effEnd 14, .fsyncBegin "t1" .fHt, .fsyncEnd "t1" .fHt,
+   .effBegin 18 (.walSet none), .effEnd 18]
 
-def good : List CE := cpre ++ .effBegin 2 (.setMeta m1) :: crest
+def good : List CE := cpre ++ .effBegin 10 (.setMeta m1) :: crest
 
 theorem hinert : ∀ b, htView P d0 b = d0.pages File.fHt b := fun _ => rfl
 
@@ -79,7 +80,16 @@ def badPre : List CE :=
    .fsyncEnd "t2" .fWal,
    .fsyncEnd "t3" .fLn]
 
-def bad : List CE := badPre ++ [.effBegin 2 (.setMeta m1), .effEnd 2, .fsyncBegin "t1" .fMeta, .fsyncEnd "t1" .fMeta]
+def bad : List CE := badPre ++ [.effBegin 8 (.setMeta m1), .effEnd 8, .fsyncBegin "t1" .fMeta, .fsyncEnd "t1" .fMeta]
+
+/-- `bad` up to the Begin of the meta write -/
+def badCut : List CE := badPre ++ [.effBegin 8 (.setMeta m1)]
+
+theorem badCut_prefix : badCut <+: bad := ⟨[.effEnd 8, .fsyncBegin "t1" .fMeta, .fsyncEnd "t1" .fMeta], rfl⟩
+
+theorem badCut_rejected : ¬ cAll ordChk 0 (cinit d0) badCut := by
+  simp [badCut, badPre, cAll, ordChk, nextPhase, cstep, cinit, markEnded, takeCSync, flush, covered, coverable,
+    Eff.file, Eff.isMeta]
 
 theorem bad_rejected : ¬ cAll ordChk 0 (cinit d0) bad := by
   simp [bad, badPre, cAll, ordChk, nextPhase, cstep, cinit, markEnded, takeCSync, flush, covered, coverable,
@@ -90,6 +100,13 @@ def badImg : D := { pages := fun f pn => if f = File.fLn ∧ pn = 1 then 5 else 
 theorem bad_image : IsCImage (crun (cinit d0) bad) badImg := by
   refine ⟨[], List.nil_sublist _, ?_⟩
   simp [bad, badPre, crun, cstep, cinit, markEnded, takeCSync, flush, covered, coverable, Eff.file, applyEffs, applyEff, badImg, d0]
+
+/-- the image is possible as soon as the meta write has begun -/
+theorem badCut_image : IsCImage (crun (cinit d0) badCut) badImg := by
+  refine ⟨[.setMeta m1], ?_, ?_⟩
+  · simp [badCut, badPre, crun, cstep, cinit, markEnded, takeCSync, flush, covered, coverable, Eff.file, CState.volEffs]
+  · simp [badCut, badPre, crun, cstep, cinit, markEnded, takeCSync, flush, covered, coverable, Eff.file, applyEffs,
+      applyEff, badImg, d0]
 
 /-- the state the operation was meant to reach -/
 def newAbs : Nat × (Nat → Nat) := absNew P (crun (cinit d0) cpre).dur m1 w1
